@@ -730,6 +730,30 @@ def substring_pairs(rng, quick, rev=False):
             if (p1 + p2) % 4 == 0:
                 pairs.append((xx, b"--" + bytes(a1) + bytes(a2) + xx + b"-" * 20))
                 pairs.append((xx, bytes(a1) + b"-" * 7 + bytes(a2) + bytes(a1) + b"-" * 33))
+    # token soups for periodic / bordered needles: occurrences, near-matches (one byte wrong, anywhere),
+    # period-sized fragments and runs of a byte outside the needle's approximate byte set, concatenated at
+    # random.  These reach the Two-Way loops in states where the "shift" memory is set and the next window is
+    # then moved by the byte-set skip, the period, or the large shift (seeded change C04-a).
+    soup_needles = [b"abab", b"ababab", b"abcabcab", b"abcabcabcabc", b"aabaab", b"abaaba", b"aabaa",
+                    b"abcab", b"bacbacba", b"baba", b"aaab", b"baaa", b"abcdabc", b"cbadcba"]
+    for x in soup_needles:
+        n = len(x)
+        per = next(q for q in range(1, n + 1) if all(x[i] == x[i + q] for i in range(n - q)))
+        nears = []
+        for i in range(n):
+            for c in set(x) | {0x7a}:
+                if c != x[i]:
+                    y = bytearray(x); y[i] = c; nears.append(bytes(y))
+        toks = [x, x, x[:per], x[-per:], x[:n - 1], x[1:]] + [b"z" * k for k in (1, 2, per, n - per if n > per else 1, n, n + 1)]
+        for _ in range(24 if quick else 120):
+            h = b""
+            for _ in range(rng.randrange(3, 9)):
+                h += rng.choice(nears) if rng.random() < 0.45 else rng.choice(toks)
+            if len(h) < 16:
+                h = h + b"z" * (16 - len(h)) if rng.random() < 0.5 else b"z" * (16 - len(h)) + h
+            pairs.append((x, h))
+            if rng.random() < 0.3:
+                pairs.append((x, b"z" * 50 + h if rng.random() < 0.5 else h + b"z" * 50))
     if not quick:
         for _ in range(400):
             n = rng.choice([rng.randrange(1, 8), rng.randrange(2, 40), rng.randrange(33, 120)])
@@ -1273,3 +1297,119 @@ def oracle_c15(op, kv, res, trace, flags, shared=b""):
         want = ";".join(([f"Some({i})" for i in seq] + ["None"] * k)[:k])
         return None if res == want else f"cloned find_iter yielded {res} under concurrency, in isolation {want}"
     return None
+
+# --------------------------------------------------------------------------
+# C13: step counts on adversarial families at geometrically growing sizes
+# --------------------------------------------------------------------------
+def steps_of(trace):
+    if trace in ("-", "?", ""):
+        return 0
+    if trace.startswith("#"):
+        return int(trace[1:].split(":")[0])
+    return sum(1 for t in trace.split(",") if not t.startswith("B"))
+
+def labels_of(trace):
+    if trace.startswith("#"):
+        parts = trace.split(":")
+        return parts[2].split(",") if len(parts) > 2 else []
+    return [t for t in trace.split(",") if t.startswith("B")]
+
+# constants of the proved bound (Props/C13.v): steps <= K * (|h| + 1) + 6 * |x| + K0
+C13_K_VECTOR = 263      # Two-Way + vector prefilter (find_simple near the end dominates the constant); packed pair is 43
+C13_K_FALLBACK = 4905   # Two-Way + portable prefilter
+C13_K0 = 1500
+
+def c13_bound(kv, n, m, calls=1):
+    K = C13_K_FALLBACK if kv.get("cpu") == "none" else C13_K_VECTOR
+    return calls * (K * (n + 1) + 6 * m + C13_K0)
+
+def c13_families(N, rng):
+    fam = []
+    for m in (2, 8, 16, 31, 32, 33, 64, 256, 1024, 4096):
+        if m * 2 > N:
+            continue
+        unit = b"a" * (m - 1) + b"b"
+        fam.append(("a^m in (a^(m-1)b)^r", b"a" * m, (unit * (N // m + 1))[:N]))
+        fam.append(("a^(m-1)b in a^N", b"a" * (m - 1) + b"b", b"a" * N))
+        fam.append(("ba^(m-1) in a^N", b"b" + b"a" * (m - 1), b"a" * N))
+    for k in (4, 20, 100):
+        x = b"ab" * k + b"c"
+        if len(x) * 2 <= N:
+            fam.append(("(ab)^k c in (ab)^*", x, (b"ab" * (N // 2 + 1))[:N]))
+            fam.append(("(ab)^k c in ((ab)^k d)^*", x, ((b"ab" * k + b"d") * (N // (2 * k + 1) + 1))[:N]))
+        x = b"abc" * k
+        if len(x) * 2 <= N:
+            fam.append(("(abc)^k in near-periods", x, ((b"abc" * (k - 1) + b"abd") * (N // (3 * k) + 1))[:N]))
+    for L in (21, 34, 55, 89, 233):
+        if L * 2 <= N:
+            fam.append(("fibonacci", fib_word(L), fib_word(N)))
+            fam.append(("thue-morse", thue_morse(L), thue_morse(N)))
+    # two rare bytes at every haystack position
+    for x in (b"xy" + b"z" * 40, b"xy" + b"q" * 6, b"xyxyxyxyxyxyxyxyxyxyxyxyxyxyxyxyxyxyxyxyxyz"):
+        fam.append(("rare pair everywhere", x, (b"xy" * (N // 2 + 1))[:N]))
+        fam.append(("rare pair + filler", x, ((x[:2] + b"q") * (N // 3 + 1))[:N]))
+        # huge candidate-free prefix, then a dense false-candidate region (keeps the adaptive prefilter on)
+        fam.append(("free prefix then dense", x, b"-" * (N // 2) + ((x[:2] + b"q") * (N // 6 + 1))[: N // 2]))
+        fam.append(("alternating sparse/dense", x, ((b"-" * 400) + (x[:3] + b"Q") * 49) * (N // 600 + 1)))
+    # periodic long needle vs its own near-periods with the prefilter kept effective
+    x = (b"abcdefgh" * 6)[:45]
+    fam.append(("periodic long in near-period", x, ((b"-" * 90) + x[:-1] + b"!" + x[8:-1] + b"!") * (N // 180 + 1)))
+    return [(name, x, h[:N]) for (name, x, h) in fam]
+
+def gen_c13(tier, rng):
+    quick = tier == "quick"
+    sizes = [1 << 8, 1 << 10, 1 << 12, 1 << 14] if quick else [1 << 8, 1 << 10, 1 << 12, 1 << 14, 1 << 16, 1 << 18, 1 << 20]
+    cases = []
+    k = 0
+    for N in sizes:
+        for (name, x, h) in c13_families(N, rng):
+            k += 1
+            if N >= (1 << 18) and k % 3:
+                continue
+            cpu = CPUS[k % 3] if N <= (1 << 14) else ""
+            cpus = f" cpu={cpu}" if cpu else ""
+            cfg = ["auto", "none"][k % 2] if N <= (1 << 12) else "auto"
+            cases.append(f"mm f=find cfg={cfg} rank=default{cpus} x={hexs(x)} h={hexs(h)} a={k % 64}")
+            if N <= (1 << 14):
+                cases.append(f"mm f=rfind x={hexs(x)} h={hexs(h)} a={k % 64}")
+                nf = len(greedy_py(h, x)); nr = len(rgreedy_py(h, x))
+                cases.append(f"mmiter dir=f cfg=auto rank=default{cpus} k={nf + 1} x={hexs(x)} h={hexs(h)}")
+                if N <= (1 << 12):
+                    cases.append(f"mmiter dir=r k={nr + 1} x={hexs(x)} h={hexs(h)}")
+    # exhaustive small binary strings
+    for x in words(b"ab", 4, 1):
+        for h in words(b"ab", 8 if quick else 10, 4):
+            k += 1
+            if quick and k % 3:
+                continue
+            cases.append(f"mm f=find cfg=auto rank=default x={hexs(x)} h={hexs(h)}")
+    return cases
+
+def gen_c13_escalate(rng):
+    """bigger needles: exposes a removed cap on the packed-pair needle length, or any per-byte cost that grows with m"""
+    cases = []
+    N = 1 << 16
+    for m in (512, 2048, 8192):
+        unit = b"a" * (m - 1) + b"b"
+        cases.append(f"mm f=find cfg=auto rank=default x={hexs(b'a' * m)} h={hexs((unit * (N // m + 1))[:N])}")
+        cases.append(f"mm f=find cfg=auto rank=default x={hexs(b'a' * (m - 1) + b'b')} h={hexs(b'a' * N)}")
+    return cases
+
+def oracle_c13(op, kv, res, trace, flags):
+    x = bytes.fromhex(kv.get("x", "")); h = bytes.fromhex(kv.get("h", ""))
+    if res.startswith("Panic") or res.startswith("CRASH"):
+        return f"{op} did not return normally: {res}"
+    if trace == "?":
+        return None
+    n, m = len(h), len(x)
+    st = steps_of(trace)
+    calls = int(kv["k"]) if op == "mmiter" else 1
+    # a complete traversal: each call works on the remaining suffix; the bound for the whole traversal is the sum
+    bound = c13_bound(kv, n, m, calls=1) + (calls - 1) * (6 * m + C13_K0 + (C13_K_FALLBACK if kv.get("cpu") == "none" else C13_K_VECTOR) * (m + 2)) if op == "mmiter" else c13_bound(kv, n, m)
+    if st > bound:
+        return (f"{op} {kv.get('f', kv.get('dir', ''))} performed {st} elementary steps on |h|={n}, |x|={m} "
+                f"({st / max(1, n + m):.1f} per byte), above the proved linear bound {bound}")
+    return None
+
+def nontrivial_c13(op, kv):
+    return len(kv.get("h", "")) >= 512
